@@ -238,12 +238,15 @@ func (e *c21env) read(st *database.Store, w []string) string {
 		if err != nil {
 			return "err"
 		}
-		return fmt.Sprintf("ckpt %d %d %d %s", cp.Height, e.codeOf(cp.Hash), cp.Status, c21join(c21sl(cp.SupLinks), ","))
+		res := fmt.Sprintf("ckpt %d %d %d %s", cp.Height, e.codeOf(cp.Hash), cp.Status, c21join(c21sl(cp.SupLinks), ","))
+		e.ownershipOracle(st, []*state.Checkpoint{cp}, "GetCheckpoint")
+		return res
 	case "ckpth":
 		cps, err := st.GetCheckpointsByHeight(uint64(n))
 		if err != nil {
 			return "err"
 		}
+		defer e.ownershipOracle(st, cps, "GetCheckpointsByHeight")
 		sort.SliceStable(cps, func(i, j int) bool { return e.codeOf(cps[i].Hash) < e.codeOf(cps[j].Hash) })
 		var parts []string
 		for _, cp := range cps {
@@ -610,3 +613,47 @@ func runC21(c *Ctx) {
 }
 
 func init() { register("c21", runC21) }
+
+// ownershipOracle: a checkpoint handed out by the store belongs to the caller (the finality
+// engine puts it into its tree and adds verifications to its links). Writing a signature into
+// every link of the returned object must not change what the store answers for the block header
+// afterwards (the returned links must not BE the cached header's link objects).
+func (e *c21env) ownershipOracle(st *database.Store, cps []*state.Checkpoint, via string) {
+	if st != e.st {
+		return
+	}
+	for _, cp := range cps {
+		h := cp.Hash
+		before, err := st.GetBlockHeader(&h)
+		if err != nil {
+			continue
+		}
+		was := e.showHdr(before)
+		for _, sl := range cp.SupLinks {
+			sl.Signatures[9] = []byte{0xee}
+		}
+		after, err := st.GetBlockHeader(&h)
+		if err != nil {
+			continue
+		}
+		if now := e.showHdrSlot9(after); now != "" || e.showHdr(after) != was {
+			e.c.Fail("checkpoint handed out by the store aliases the cached block header", fmt.Sprintf("%s(block %d): writing into the links of the returned checkpoint changed the cached header: %s -> %s %s", via, e.codeOf(h), was, e.showHdr(after), now))
+			// undo, so that the rest of the stream is not disturbed
+			for _, sl := range after.SupLinks {
+				sl.Signatures[9] = nil
+			}
+		}
+		for _, sl := range cp.SupLinks {
+			sl.Signatures[9] = nil
+		}
+	}
+}
+
+func (e *c21env) showHdrSlot9(h *types.BlockHeader) string {
+	for _, sl := range h.SupLinks {
+		if len(sl.Signatures[9]) != 0 {
+			return fmt.Sprintf("(slot 9 of the cached header's link from height %d is now set)", sl.SourceHeight)
+		}
+	}
+	return ""
+}
